@@ -651,6 +651,33 @@ def deref(f, e, depth=3):
     return e
 
 
+def inline_block(stmts):
+    """copy of a statement list with temporaries folded in: `t = e` directly followed by a statement that reads t once
+    (t not read anywhere else in the block) becomes that statement with e in place of t.  Used to compare the arms of a
+    switch independently of whether intermediate values were given names."""
+    import copy
+    body = [copy.deepcopy(s) for s in stmts]
+    changed = True
+    while changed:
+        changed = False
+        for i in range(len(body) - 1):
+            a, b = body[i], body[i + 1]
+            if isinstance(a, ast.Assign) and len(a.targets) == 1 and isinstance(a.targets[0], ast.Name):
+                t = a.targets[0].id
+                loads = [y for s in body for y in ast.walk(s) if isinstance(y, ast.Name) and y.id == t and isinstance(y.ctx, ast.Load)]
+                stores = [y for s in body for y in ast.walk(s) if isinstance(y, ast.Name) and y.id == t and isinstance(y.ctx, ast.Store)]
+                here = [y for y in ast.walk(b) if isinstance(y, ast.Name) and y.id == t and isinstance(y.ctx, ast.Load)]
+                if len(loads) == 1 and len(here) == 1 and len(stores) == 1 and not isinstance(b, (ast.If, ast.For, ast.While, ast.With, ast.Try)):
+                    class R(ast.NodeTransformer):
+                        def visit_Name(self, n):
+                            return a.value if (n.id == t and isinstance(n.ctx, ast.Load)) else n
+                    body[i + 1] = ast.fix_missing_locations(R().visit(b))
+                    del body[i]
+                    changed = True
+                    break
+    return body
+
+
 def var_from_call(f, callee_name, index=None):
     """name of the local that receives the result of a call to <callee_name> (index: position in a tuple-unpack)"""
     for n in walk_shallow(f.node):
